@@ -384,11 +384,14 @@ LEVELS = {
         "text": "Theorems in Coq about an executable model of ParseValidNameKV / ValidNamesSplit / GenValidKV / RM.Set/Get: no-loss law for "
                 "every byte string, quoted commas never split, builder text, parser round trip and the whole list pipeline for every "
                 "well-formed rule list (unbounded). The model is tied to the code by evaluating it inside Coq on the harness's cases next to the "
-                "observed outputs, and the label/regex constants are regenerated from the source on every run.",
+                "observed outputs, and the label/regex constants are regenerated from the source on every run. The go/ast syntax tree of ParseValidNameKV is "
+                "REGENERATED FROM /repo ON EVERY RUN and, under a stated semantics of the Go forms it uses (strings.Index, slices with run-time bounds, len, "
+                "regexp match, concatenation), proved to compute the model's parse_kv on every byte string.",
         "design_ref": "DESIGN.md section 5, C14",
-        "note": "Trusted: Coq kernel + vm_compute; the Go translator (constants, IncludeZhRe); the correspondence harness. The model is hand-written "
-                "(not a compilation of the Go source). '|' inside a value is excluded (known finding D14, theorem C14_bar_in_value_refuted).",
-        "technique": "Coq proof (induction over strings / rule lists) + model-vs-implementation correspondence evaluated in Coq",
+        "note": "Trusted: Coq kernel + vm_compute; the Go translator (constants, IncludeZhRe; minigo.go, one constructor per go/ast node) and the semantics of "
+                "Model/GoParse.v; the correspondence harness. ValidNamesSplit, GenValidKV and RM are hand-modelled (not a compilation of the Go source). "
+                "'|' inside a value is excluded (known finding D14, theorem C14_bar_in_value_refuted).",
+        "technique": "Coq proof (induction over strings / rule lists) + source-to-Gallina translator with an interpreter proved equal to the model + model-vs-implementation correspondence evaluated in Coq",
     },
 }
 
